@@ -167,6 +167,10 @@ class HeapExec(DynExec):
         for k, v in uni.items():
             if k == '__class_axioms__':
                 continue
+            if k == '__all_groups__':
+                # stated shape of the segment: every element is a group node (e.g. the chain of ancestors of a token)
+                st.assume(isg.z)
+                continue
             if k == '__ttype_in__':
                 # stated shape of the segment: every element's token type lies in the given family (e.g. whitespace runs)
                 st.assume(self._b(self.contains(tt, v, st)))
